@@ -2,6 +2,7 @@ package main
 
 import (
 	"flag"
+	"os/exec"
 	"fmt"
 	"os"
 	"sort"
@@ -39,6 +40,7 @@ func cmdDump(args []string) {
 	timeout := fs.Int("t", 10, "")
 	only := fs.String("solver", "", "")
 	keep := fs.Bool("keep", false, "keep smt files")
+	fullModel := fs.String("fullmodel", "", "write the full model of failing obligations whose name contains this string to /tmp/gvc-model-<n>.txt")
 	fs.Parse(args)
 	pats := defaultPkgs
 	if *pk != "" {
@@ -112,6 +114,9 @@ func cmdDump(args []string) {
 					fmt.Printf("        %s = %s\n", k, v)
 				}
 			}
+			if !good && o.Result == "sat" && *fullModel != "" && strings.Contains(o.Name, *fullModel) {
+				dumpFullModel(o)
+			}
 			if !good && o.Result != "sat" {
 				fmt.Printf("        %s\n", firstLines(o.RawOut, 3))
 			}
@@ -142,3 +147,20 @@ func cmdDump(args []string) {
 	}
 }
 
+
+var fullModelN int
+
+func dumpFullModel(o *Obl) {
+	fullModelN++
+	script := o.script(true)
+	if i := strings.LastIndex(script, "(get-value"); i >= 0 {
+		script = script[:i]
+	}
+	script += "(get-model)\n"
+	in := fmt.Sprintf("/tmp/gvc-model-%d.smt2", fullModelN)
+	out := fmt.Sprintf("/tmp/gvc-model-%d.txt", fullModelN)
+	os.WriteFile(in, []byte(script), 0o644)
+	res, _ := exec.Command("z3-new", "-T:30", in).CombinedOutput()
+	os.WriteFile(out, res, 0o644)
+	fmt.Printf("        full model: %s (query %s)\n", out, in)
+}
